@@ -88,7 +88,19 @@ func Refresh(data map[string]string) error {
 		case *AsyncLogger:
 			base = &config.LoggerBase
 			ref = &config.AppenderRefs
-		default: // for linter
+		case *DiscardLogger:
+			base = &config.LoggerBase
+		case *ConsoleLogger:
+			base = &config.LoggerBase
+		case *FileLogger:
+			base = &config.LoggerBase
+		case *RollingFileLogger:
+			base = &config.LoggerBase
+		default:
+			return nil, errutil.Explain(nil, "unsupported logger type %T", config)
+		}
+		if ref == nil { // logger without appender references
+			return base, nil
 		}
 		for _, r := range ref.AppenderRefs {
 			appender, ok := cAppenders[r.Ref]
